@@ -3,6 +3,7 @@ package planner
 import (
 	"encoding/json"
 	"fmt"
+	"sort"
 	"strings"
 
 	"github.com/buildbuildio/pebbles/common"
@@ -67,9 +68,22 @@ func (sf ScrubFields) Clean(payload map[string]interface{}) {
 		return
 	}
 
-	for key, fields := range sf {
-		path := sf.unhash(key)
-		sf.clean(payload, path, fields)
+	// whether an object left empty is pruned depends on what was removed below it before,
+	// so the paths are visited in a fixed order: deepest first, then by name
+	keys := make([]string, 0, len(sf))
+	for key := range sf {
+		keys = append(keys, key)
+	}
+	sort.Slice(keys, func(i, j int) bool {
+		di, dj := len(sf.unhash(keys[i])), len(sf.unhash(keys[j]))
+		if di != dj {
+			return di > dj
+		}
+		return keys[i] < keys[j]
+	})
+
+	for _, key := range keys {
+		sf.clean(payload, sf.unhash(key), sf[key])
 	}
 
 	return
@@ -77,7 +91,14 @@ func (sf ScrubFields) Clean(payload map[string]interface{}) {
 
 func (sf ScrubFields) clean(payload map[string]interface{}, path []string, fields map[string][]string) bool {
 	if len(path) == 0 {
-		for typename, fields := range fields {
+		// without __typename in the payload the first type decides: take them in name order
+		typenames := make([]string, 0, len(fields))
+		for typename := range fields {
+			typenames = append(typenames, typename)
+		}
+		sort.Strings(typenames)
+		for _, typename := range typenames {
+			fields := fields[typename]
 			if tn, ok := payload[common.TypenameFieldName]; ok && typename != tn {
 				continue
 			}
